@@ -18,6 +18,12 @@ import sfsproj
 import sfsrun
 
 
+# sub-blocks that only consume, entered with several elements they never touch (after a split instruction that follows a deep DUP;
+# a deep DUP that is cancelled): the stack bound is computed from the pruned variable list
+PINNED = ["DUP4 GAS ADD ADD", "DUP5 GAS POP POP ADD", "MSTORE DUP3 POP", "DUP4 GAS SUB SUB", "DUP6 PUSH 0 PUSH 0 LOG0 ADD", "DUP5 GAS LT ISZERO",
+          "SSTORE DUP4 POP ADD"]
+
+
 def search(cases, timeout, jobs=None, tag="srch"):
     """cases: [{id, sfs, b0, bs, origins, subins}] -> ({id: minlen}, verdict tuples, stats, finished ids)"""
     jobs = jobs or common.NCPU
@@ -52,6 +58,7 @@ def run(tier):
     t0 = time.time()
     seed = common.seed()
     groups, gstats = c01.build_corpus(tier, seed)
+    groups["H"] = groups["H"] + [{"cmd": "opt", "text": t} for t in PINNED]
     recs, cnt, setnames = sfscorpus.collect(tier, groups)
     limit = 5 if tier == "quick" else 8
     small, large = [], []
